@@ -87,6 +87,8 @@ package batching
 //@   atcall Reserve: held(d.flushMu) && len(events) > 0
 //@   order Reserve after Flush
 
+// (Every drained result is emitted in its own iteration of the drain loop - i.e. under the drain
+// lock, which is what serialises the emitters - by the one send statement there.)
 //@ func ReorderFetcher.flush$0
 //@   property C04 C20
 //@   nosafety
@@ -95,3 +97,6 @@ package batching
 //@   ensures called(Add) && called(Drain)
 //@   atcall fetchBatch: same(arg1, events)
 //@   atcall Add: arg0 == seqNum && same(arg1, result)
+//@   atcall send:Output@1: false
+//@   loop 1:
+//@     step called("send:Output")
